@@ -35,11 +35,11 @@ Proof.
 Qed.
 
 Lemma im_opt_inv : forall A (p : parser A) i o r, opt p i = POk o r ->
-  (o = None /\ r = i) \/ (exists x, o = Some x /\ p i = POk x r).
+  (o = None /\ r = i /\ exists l m, p i = PErr false l m) \/ (exists x, o = Some x /\ p i = POk x r).
 Proof.
   intros A p i o r H. unfold opt in H. destruct (p i) as [a m | [|] l0 m | w |]; try discriminate.
   - inversion H; subst. right. eauto.
-  - inversion H; subst. left. auto.
+  - inversion H; subst. left. eauto.
 Qed.
 
 Lemma im_with_span_inv : forall A (p : parser A) i v r, with_span p i = POk v r -> p i = POk (fst v) r.
@@ -59,7 +59,7 @@ Lemma im_has_peek_inv : forall A (p : parser A) i b r, has_peek p i = POk b r ->
 Proof.
   intros A p i b r H. unfold has_peek in H. destruct (im_pmap_inv _ _ _ _ _ _ _ H) as (o & -> & P).
   destruct (im_peek_inv _ _ _ _ _ P) as (-> & r' & O). split; [reflexivity |].
-  destruct (im_opt_inv _ _ _ _ _ O) as [[-> _] | (x & -> & Px)]; [discriminate | eauto].
+  destruct (im_opt_inv _ _ _ _ _ O) as [(-> & _) | (x & -> & Px)]; [discriminate | eauto].
 Qed.
 
 Lemma im_space0_rest : forall i s r, space0 i = POk s r -> starts_not is_sp r.
@@ -113,7 +113,7 @@ Proof.
   intros i w r H. unfold acc_word in H. destruct (im_bind_inv _ _ _ _ _ _ _ H) as (o & m & O & T).
   unfold take_till1 in T. destruct (im_take_while1_inv _ _ _ _ T) as (Hne & Hw & Em & Hr).
   repeat split; auto.
-  destruct (im_opt_inv _ _ _ _ _ O) as [[_ ->] | (x & _ & L)]; [left; exact Em |].
+  destruct (im_opt_inv _ _ _ _ _ O) as [(_ & -> & _) | (x & _ & L)]; [left; exact Em |].
   right. unfold literal in L. destruct (strip_prefix [32] i) as [r0 |] eqn:S; [| discriminate].
   inversion L; subst. apply strip_prefix_app in S. exact S.
 Qed.
@@ -195,3 +195,208 @@ Proof.
     + exists c, ((w' ++ s) ++ m). split; [rewrite Ei; reflexivity | rewrite Ea'; reflexivity].
     + exfalso. rewrite Ei in Hi. cbn in Hi. discriminate.
 Qed.
+
+(* ================================================================================== *)
+(* the posting                                                                        *)
+(* ================================================================================== *)
+
+(* Uncleared exactly when no mark is there; after a mark the blanks are gone *)
+Lemma clear_state_inv : forall i cs r, ParseMeta.clear_state i = POk cs r ->
+  match cs with
+  | Uncleared => r = i /\ starts_not is_clear_mark i
+  | _ => starts_not is_sp r
+  end.
+Proof.
+  intros i cs r H. unfold ParseMeta.clear_state in H.
+  destruct (im_pmap_inv _ _ _ _ _ _ _ H) as (o & -> & O). clear H.
+  destruct (im_opt_inv _ _ _ _ _ O) as [(-> & -> & l & m & F) | (x & -> & T)].
+  - split; [reflexivity |]. destruct i as [| c i']; [exact I |]. cbn [starts_not].
+    destruct (is_clear_mark c) eqn:M; [| reflexivity]. exfalso.
+    destruct (space0_skip i') as [s0 E0].
+    unfold is_clear_mark in M. apply orb_true_iff in M. destruct M as [M | M]; apply N.eqb_eq in M; subst c;
+      unfold terminated, bind, alt in F.
+    + rewrite (chr_ok 42 i') in F. unfold ret at 1 in F. rewrite E0 in F. discriminate.
+    + assert (C : chr 42 (33 :: i') = PErr false 0 (33 :: i')) by reflexivity.
+      rewrite C, (chr_ok 33 i') in F. unfold ret at 1 in F. rewrite E0 in F. discriminate.
+  - unfold terminated in T. destruct (im_bind_inv _ _ _ _ _ _ _ T) as (y & m & A & K).
+    destruct (im_bind_inv _ _ _ _ _ _ _ K) as (s0 & m0 & S0 & K0). unfold ret in K0. inversion K0; subst y m0.
+    pose proof (im_space0_rest _ _ _ S0) as Hr.
+    destruct (alt_inv _ _ _ _ _ _ A) as [B | B];
+      destruct (im_bind_inv _ _ _ _ _ _ _ B) as (c0 & m1 & _ & R); unfold ret in R; inversion R; subst; exact Hr.
+Qed.
+
+Lemma clear_state_keeps : forall i cs r, ParseMeta.clear_state i = POk cs r ->
+  starts_not is_sp i -> starts_not is_sp r.
+Proof.
+  intros i cs r H Hi. apply clear_state_inv in H. destruct cs; [destruct H as [-> _]; exact Hi | exact H | exact H].
+Qed.
+
+Section Image.
+Hypothesis value_expr_wf : forall fuel i v r, value_expr fuel i = POk v r -> wf_vexpr v = true.
+Hypothesis posting_amount_wf : forall fuel i pa sps r,
+  posting_amount fuel i = POk (pa, sps) r -> wf_posting_amount pa = true.
+Hypothesis date_wf : forall i d r, ParseExpr.date i = POk d r -> wf_date d = true.
+
+Lemma im_amount_wf : forall fuel i am r,
+  context L_amount (opt (terminated (posting_amount fuel) space0)) i = POk am r ->
+  opt_all wf_posting_amount (option_map fst am) = true.
+Proof using posting_amount_wf.
+  intros fuel i am r H. apply im_context_inv in H.
+  destruct (im_opt_inv _ _ _ _ _ H) as [(-> & _) | (x & -> & T)]; [reflexivity |].
+  unfold terminated in T. destruct (im_bind_inv _ _ _ _ _ _ _ T) as (y & m & A & K).
+  destruct (im_bind_inv _ _ _ _ _ _ _ K) as (s0 & m0 & _ & K0). unfold ret in K0. inversion K0; subst y m0.
+  destruct x as [pa sps]. exact (posting_amount_wf _ _ _ _ _ A).
+Qed.
+
+Lemma im_balance_wf : forall fuel i (bal : option (s_vexpr * rspan)) r,
+  opt (context L_balance (with_span (delimited (chr 61 ;;; space0) (value_expr fuel) space0))) i = POk bal r ->
+  opt_all wf_vexpr (option_map fst bal) = true.
+Proof using value_expr_wf.
+  intros fuel i bal r H.
+  destruct (im_opt_inv _ _ _ _ _ H) as [(-> & _) | (x & -> & T)]; [reflexivity |].
+  apply im_context_inv in T. apply im_with_span_inv in T. unfold delimited in T.
+  destruct (im_bind_inv _ _ _ _ _ _ _ T) as (y & m & _ & K).
+  destruct (im_bind_inv _ _ _ _ _ _ _ K) as (v & m0 & V & K0).
+  destruct (im_bind_inv _ _ _ _ _ _ _ K0) as (s0 & m1 & _ & K1). unfold ret in K1. inversion K1; subst.
+  cbn [option_map opt_all]. exact (value_expr_wf _ _ _ _ V).
+Qed.
+
+Lemma posting_body_wf : forall fuel i p x r, posting_body fuel i = POk (p, x) r -> wf_posting p = true.
+Proof using value_expr_wf posting_amount_wf.
+  intros fuel i p x r H. unfold posting_body in H.
+  destruct (im_bind_inv _ _ _ _ _ _ _ H) as (cs & m1 & C & K1). clear H.
+  destruct (im_bind_inv _ _ _ _ _ _ _ K1) as ([a sp] & m2 & A & K2). clear K1.
+  destruct (im_bind_inv _ _ _ _ _ _ _ K2) as (shortcut & m3 & _ & K3). clear K2.
+  unfold preceded in C. destruct (im_bind_inv _ _ _ _ _ _ _ C) as (s0 & m0 & S0 & C0). clear C.
+  pose proof (im_space0_rest _ _ _ S0) as Hm0.
+  apply im_context_inv in A. destruct (posting_account_wf _ _ _ _ _ A) as [Wa Hd].
+  assert (Hc : match cs with Uncleared => negb (starts is_clear_mark a) | _ => true end = true).
+  { pose proof (clear_state_inv _ _ _ C0) as I0. destruct cs; [| reflexivity | reflexivity].
+    destruct I0 as [-> Hm]. destruct (Hd Hm0) as (c & y & -> & Hh).
+    destruct a as [| c' a']; [discriminate |]. cbn [hd] in Hh. subst c'. cbn [starts starts_not] in *.
+    rewrite Hm. reflexivity. }
+  cbn [fst snd] in K3. destruct shortcut.
+  - destruct (im_bind_inv _ _ _ _ _ _ _ K3) as (md & m4 & M & K4). unfold ret in K4. inversion K4; subst.
+    unfold wf_posting. cbn [sp_account sp_clear sp_amount sp_balance sp_metadata opt_all].
+    rewrite Wa, Hc, (block_metadata_wf _ _ _ _ M). reflexivity.
+  - destruct (im_bind_inv _ _ _ _ _ _ _ K3) as (am & m4 & Am & K4). clear K3.
+    destruct (im_bind_inv _ _ _ _ _ _ _ K4) as (bal & m5 & Bal & K5). clear K4.
+    destruct (im_bind_inv _ _ _ _ _ _ _ K5) as (md & m6 & M & K6). clear K5.
+    unfold ret in K6. inversion K6; subst. apply im_context_inv in M.
+    unfold wf_posting. cbn [sp_account sp_clear sp_amount sp_balance sp_metadata].
+    rewrite Wa, Hc, (im_amount_wf _ _ _ _ Am), (im_balance_wf _ _ _ _ Bal), (block_metadata_wf _ _ _ _ M).
+    reflexivity.
+Qed.
+
+Theorem posting_wf : forall fuel i p sps r, posting fuel i = POk (p, sps) r -> wf_posting p = true.
+Proof using value_expr_wf posting_amount_wf date_wf.
+  intros fuel i p sps r H. unfold posting in H.
+  destruct (im_pmap_inv _ _ _ _ _ _ _ H) as ([[p0 [[[[a am] co] lp] ba]] sp] & E & S).
+  inversion E; subst p0. apply im_with_span_inv in S. cbn [fst] in S. apply im_context_inv in S.
+  exact (posting_body_wf _ _ _ _ _ S).
+Qed.
+
+(* ================================================================================== *)
+(* the transaction                                                                    *)
+(* ================================================================================== *)
+
+(* after the date: either the line ends here (or a `;` follows), or blanks were skipped *)
+Lemma im_shortest_rest : forall i b m u m',
+  has_peek (alt line_ending_or_eof (void (chr 59))) i = POk b m ->
+  cond (negb b) space1 m = POk u m' -> starts_not is_sp m'.
+Proof using.
+  intros i b m u m' H C. destruct (im_has_peek_inv _ _ _ _ _ H) as [-> Hb]. destruct b; cbn [negb cond] in C.
+  - unfold ret in C. inversion C; subst. destruct (Hb eq_refl) as (x & r' & P). clear Hb H C.
+    destruct m' as [| c k]; [exact I |]. cbn [starts_not]. destruct (is_sp c) eqn:S; [| reflexivity]. exfalso.
+    unfold is_sp in S. apply orb_true_iff in S. destruct S as [S | S]; apply N.eqb_eq in S; subst c; discriminate.
+  - destruct (im_pmap_inv _ _ _ _ _ _ _ C) as (s & _ & S). exact (im_space1_rest _ _ _ S).
+Qed.
+
+Lemma im_code_inv : forall i code r, opt (terminated paren_str space0) i = POk code r ->
+  match code with
+  | None => r = i
+  | Some c => wf_code c = true /\ starts_not is_sp r
+  end.
+Proof using.
+  intros i code r H. destruct (im_opt_inv _ _ _ _ _ H) as [(-> & -> & _) | (c & -> & T)]; [reflexivity |].
+  unfold terminated in T. destruct (im_bind_inv _ _ _ _ _ _ _ T) as (y & m & P & K).
+  destruct (im_bind_inv _ _ _ _ _ _ _ K) as (s0 & m0 & S0 & K0). unfold ret in K0. inversion K0; subst y m0.
+  split; [| exact (im_space0_rest _ _ _ S0)].
+  unfold paren_str, paren, delimited in P.
+  destruct (im_bind_inv _ _ _ _ _ _ _ P) as (c0 & m1 & _ & K1).
+  destruct (im_bind_inv _ _ _ _ _ _ _ K1) as (v & m2 & V & K2).
+  destruct (im_bind_inv _ _ _ _ _ _ _ K2) as (c1 & m3 & _ & K3). unfold ret in K3. inversion K3; subst.
+  unfold take_till0 in V. destruct (im_take_while0_inv _ _ _ _ V) as (Hc & _ & _).
+  unfold wf_code. apply (all_impl (fun c => negb (41 =? c))); [| exact Hc].
+  intros x Hx. rewrite N.eqb_sym. exact Hx.
+Qed.
+
+Lemma im_payee_inv : forall i payee r, opt (pmap trim_end till_line_ending_or_semi) i = POk payee r ->
+  let p := match payee with Some p => p | None => [] end in
+  forallb (fun c => negb (is_payee_stop c)) p = true /\ end_trimmed p = true /\
+  (forall f, starts_not f i -> starts f p = false).
+Proof using.
+  intros i payee r H. destruct (im_opt_inv _ _ _ _ _ H) as [(-> & _) | (p & -> & T)]; cbv zeta.
+  - repeat split.
+  - destruct (im_pmap_inv _ _ _ _ _ _ _ T) as (x & -> & X). unfold till_line_ending_or_semi, take_till1 in X.
+    destruct (im_take_while1_inv _ _ _ _ X) as (_ & Hx & Ei & _).
+    split; [exact (trim_end_all _ _ Hx) |].
+    split; [unfold end_trimmed; apply str_eqb_eq; apply trim_end_idem |].
+    intros f Hf. destruct (trim_end_prefix x) as [w Ew].
+    apply (im_starts_prefix f (trim_end x) (w ++ r) i); [| exact Hf].
+    rewrite app_assoc, <- Ew. exact Ei.
+Qed.
+
+Theorem transaction_wf : forall fuel i t sps r, transaction fuel i = POk (t, sps) r ->
+  open_paren_payee t = false -> wf_txn t = true.
+Proof using value_expr_wf posting_amount_wf date_wf.
+  intros fuel i t sps r H Hop. unfold transaction in H.
+  destruct (im_bind_inv _ _ _ _ _ _ _ H) as (d & m1 & D & K1). clear H.
+  destruct (im_bind_inv _ _ _ _ _ _ _ K1) as (ed & m2 & Ed & K2). clear K1.
+  destruct (im_bind_inv _ _ _ _ _ _ _ K2) as (sh & m3 & Sh & K3). clear K2.
+  destruct (im_bind_inv _ _ _ _ _ _ _ K3) as (u & m4 & Cd & K4). clear K3.
+  destruct (im_bind_inv _ _ _ _ _ _ _ K4) as (cs & m5 & Cs & K5). clear K4.
+  destruct (im_bind_inv _ _ _ _ _ _ _ K5) as (code & m6 & Co & K6). clear K5.
+  destruct (im_bind_inv _ _ _ _ _ _ _ K6) as (payee & m7 & Pa & K7). clear K6.
+  destruct (im_bind_inv _ _ _ _ _ _ _ K7) as (md & m8 & Md & K8). clear K7.
+  destruct (im_bind_inv _ _ _ _ _ _ _ K8) as (posts & m9 & Po & K9). clear K8.
+  unfold ret in K9. inversion K9; subst t sps m9. clear K9.
+  (* the date, the effective date *)
+  apply im_context_inv in D. pose proof (date_wf _ _ _ D) as Wd.
+  assert (Wed : opt_all wf_date ed = true).
+  { destruct (im_opt_inv _ _ _ _ _ Ed) as [(-> & _) | (x & -> & T)]; [reflexivity |].
+    unfold preceded in T. destruct (im_bind_inv _ _ _ _ _ _ _ T) as (c0 & m & _ & T').
+    exact (date_wf _ _ _ T'). }
+  (* no blank in front of the mark, the code, the payee *)
+  pose proof (im_shortest_rest _ _ _ _ _ Sh Cd) as S4.
+  pose proof (clear_state_keeps _ _ _ Cs S4) as S5.
+  pose proof (clear_state_inv _ _ _ Cs) as ICs.
+  pose proof (im_code_inv _ _ _ Co) as ICo.
+  assert (Wco : opt_all wf_code code = true) by (destruct code; [exact (proj1 ICo) | reflexivity]).
+  assert (S6 : starts_not is_sp m6) by (destruct code; [exact (proj2 ICo) | subst m6; exact S5]).
+  destruct (im_payee_inv _ _ _ Pa) as (P1 & P2 & P3). cbv zeta in P1, P2, P3.
+  set (p := match payee with Some p => p | None => [] end) in *.
+  unfold open_paren_payee in Hop. cbn [st_code st_payee] in Hop. fold p in Hop.
+  assert (Wp : wf_payee cs code p = true).
+  { unfold wf_payee. rewrite P1, P2, (P3 is_sp S6). cbn [negb andb].
+    assert (Q1 : match code with None => negb (starts (N.eqb 40) p) | Some _ => true end = true).
+    { destruct code; [reflexivity |]. change (starts (N.eqb 40) p = false) in Hop. rewrite Hop. reflexivity. }
+    apply andb_true_iff. split; [exact Q1 |].
+    destruct cs; try reflexivity. destruct code; [reflexivity |].
+    destruct ICs as [-> Hm]. subst m6. rewrite (P3 is_clear_mark Hm). reflexivity. }
+  (* the postings *)
+  assert (Wpo : forallb wf_posting (map fst posts) = true).
+  { rewrite im_forallb_map.
+    refine (many0_forall _ (fun x => wf_posting (fst x)) _ _ _ _ _ _ Po).
+    intros i0 [p0 sps0] r0 H0. unfold preceded in H0.
+    destruct (im_bind_inv _ _ _ _ _ _ _ H0) as (u0 & m & _ & H1). apply im_cut_err_inv in H1.
+    exact (posting_wf _ _ _ _ _ H1). }
+  unfold wf_txn. rewrite !andb_true_iff.
+  repeat split; [exact Wd | exact Wed | exact Wco | exact Wp | exact (block_metadata_wf _ _ _ _ Md) | exact Wpo].
+Qed.
+
+End Image.
+
+Print Assumptions posting_account_wf.
+Print Assumptions posting_wf.
+Print Assumptions transaction_wf.
